@@ -340,10 +340,32 @@ def extra(tier, seed):
                          "property": PROPERTY, "kind": "custom", "module": MOD})
         except ValueError:
             pass
-    return {"violations": errs, "nan_rejections_checked": n}
+    # an unlimited Standardiser stays transparent for a pool reporting infinite supply (supply - backlog is
+    # inf - inf = nan there): enumerated, concrete
+    inf = float("inf")
+    m = 0
+    for supply in (inf, 1e308):
+        for kw in ({}, {"granularity": 2}, {"surplus": 5.0}, {"minimum": -10.0, "maximum": 1e9}):
+            for value in (5.0, -3.5, 0.0, 128.0):
+                m += 1
+                pool = RecPool(demand=0.0, supply=supply)
+                st = Standardiser(pool, **kw)
+                st.demand = value
+                g = kw.get("granularity", 1)
+                want = value if g == 1 else value // g * g
+                want = max(want, kw.get("minimum", -inf))
+                if not (pool.demand == want and st.demand == max(value, kw.get("minimum", -inf))):
+                    errs.append({"harness": "nonfinite_supply", "label": "no limit interferes: the written value (floored) reaches the target",
+                                 "inputs": {"supply": repr(supply), "kwargs": repr(kw), "value": value, "target": repr(pool.demand), "readback": repr(st.demand)},
+                                 "params": {}, "status": "confirmed", "property": PROPERTY, "kind": "custom", "module": MOD})
+    return {"violations": errs, "nan_rejections_checked": n, "nonfinite_supply_states": m}
 
 
 def replay(v):
+    if v.get("harness") == "nonfinite_supply":
+        hit = [x for x in extra("quick", 0)["violations"] if x["harness"] == "nonfinite_supply"]
+        print("REPRODUCED" if hit else "not reproduced on this tree")
+        return 1 if hit else 0
     kw = next(iter(v["inputs"]))
     try:
         Standardiser(RecPool(), **{kw: float("nan")})
